@@ -8,6 +8,7 @@ import (
 	"math/rand"
 	"os"
 	"path"
+	"strings"
 )
 
 var dirFileNames = []string{"a", "b", "c", "d"}
@@ -22,6 +23,7 @@ type nsGen struct {
 	withSetattr bool
 	badNames    bool // include invalid names / targets
 	creds       []Cred
+	withMnt     bool // include MNT of existing directories under non-canonical spellings
 	// tight: two names only and mostly LOOKUP/MKDIR/RMDIR/RENAME/CREATE/REMOVE, so that names are reused for
 	// different objects (and looked up while absent) many times within one history
 	tight bool
@@ -153,6 +155,11 @@ func (g *nsGen) next() SOp {
 		}
 	case k < 82:
 		o.Kind, o.Dir = "getattr", anyObj[rng.Intn(len(anyObj))]
+		if g.withMnt && rng.Intn(3) == 0 {
+			// MNT names an export path: any spelling of a directory path.Clean maps to it must yield the same object
+			o.Kind, o.Dir = "mnt", dir
+			o.Target = mntSpelling(rng, dir)
+		}
 	case k < 86:
 		o.Kind, o.Dir = "readlink", pick(rng, links, pick(rng, files, "/"))
 	case k < 90:
@@ -245,3 +252,26 @@ func genNsCase(rng *rand.Rand, n int, g *nsGen) SrvCase {
 }
 
 var _ = path.Join
+
+// mntSpelling returns a way a client may spell the directory p in a MNT request (path.Clean maps all of them to p).
+func mntSpelling(rng *rand.Rand, p string) string {
+	if p == "/" {
+		return []string{"/", "//", "/.", "/./", "///"}[rng.Intn(5)]
+	}
+	switch rng.Intn(7) {
+	case 0:
+		return p
+	case 1:
+		return p + "/"
+	case 2:
+		return "/" + p
+	case 3:
+		return p + "/."
+	case 4:
+		return "/." + p
+	case 5:
+		return "/" + strings.Replace(p[1:], "/", "//", 1) + "//"
+	default:
+		return p + "/./"
+	}
+}
